@@ -43,7 +43,7 @@ Theorem C05_ids_exhausted : forall tcp q0 s t th,
   q0 <= 65536 -> reachable tcp q0 s -> nextQid s = 65536 ->
   tget s t = Some th -> tpc th = PStart ->
   status_available s = false /\
-  exists s' th', step s (LAdd t) = Some s' /\
+  exists s' th', pstep s (LAdd t) = Some s' /\
     tget s' t = Some th' /\ tpc th' = PReturned RErrEoL /\ twid th' = None /\
     nextQid s' = 65536 /\ alog s' = alog s /\ queue s' = queue s.
 Proof. exact add_exhausted. Qed.
@@ -53,7 +53,7 @@ Print Assumptions C05_ids_exhausted.
 Theorem C05_retired : forall s t th r w,
   nextQid s = 65536 -> tget s t = Some th -> tpc th = PLeaving r -> twid th = Some w ->
   queue s = [(w, t)] ->
-  exists s1 s2, step s (LDelete t) = Some s1 /\ step s1 (LEolClose t) = Some s2 /\
+  exists s1 s2, pstep s (LDelete t) = Some s1 /\ pstep s1 (LEolClose t) = Some s2 /\
     closed s2 = true /\ queue s2 = [] /\ status_available s2 = false /\
     exists th2, tget s2 t = Some th2 /\ tpc th2 = PReturned r.
 Proof. exact retire_when_drained. Qed.
@@ -117,7 +117,7 @@ Print Assumptions C05_big_refines_small.
 (* out-of-order + duplicate + unsolicited + late-after-cancel replies: exchanges 0,1,2 (caller ids 500,
    501,500) get wire ids 0,1,2; the server answers 1 before 0, repeats both, sends an unknown id 7;
    exchange 2 is cancelled and its reply arrives late; exchange 3 then gets id 3 and ITS reply. *)
-Definition ex_history : list event :=
+Definition ex_history : list pevent :=
   [EvStart 500; EvStart 501; EvStart 500;
    EvReplyTo 1 11; EvReplyTo 0 12; EvReplyTo 1 13; EvReplyTo 0 14; EvEmitId 7 15;
    EvCancel 2; EvReplyTo 2 16; EvStart 502; EvEmitId 2 17; EvReplyTo 3 18].
@@ -137,12 +137,12 @@ Proof. vm_compute. eexists. eexists. repeat split; reflexivity. Qed.
 (* a small-step schedule that is NOT quiescent: the late reply to the cancelled exchange 0 lands in its
    stale channel between the ctx arm and the deferred delete; it is never returned, and exchange 1 gets
    the next id *)
-Definition ex_schedule : list label :=
+Definition ex_schedule : list plabel :=
   [LSpawn 9; LAdd 0; LWrite 0 true; LCancel 0; LCtxArm 0; LRecv 0 77; LLookup; LSend; LDelete 0;
    LSpawn 9; LAdd 1; LWrite 1 true; LRecv 0 78; LLookup; LRecv 1 79; LLookup; LSend; LTakeReply 1; LDelete 1].
 
 Example C05_example_schedule :
-  match run ex_schedule (init false 0) with
+  match run ex_schedule (pinit false 0) with
   | Some s => outcomes s = [(OErr, Some 0); (OMsg 79 true, Some 1)] /\ queue s = [] /\ nextQid s = 2
   | None => False
   end.
